@@ -50,31 +50,55 @@ func (s *Store[H]) deleteSingle(
 	ctx context.Context,
 	height uint64,
 	onDelete []func(ctx context.Context, height uint64) error,
-) error {
+) (header.Hash, error) {
 	// some of the methods may not handle context cancellation properly
 	if ctx.Err() != nil {
-		return context.Cause(ctx)
+		return nil, context.Cause(ctx)
 	}
 
 	hash, err := s.heightIndex.HashByHeight(ctx, height, false)
 	if err != nil {
-		return fmt.Errorf("hash by height %d: %w", height, err)
+		return nil, fmt.Errorf("hash by height %d: %w", height, err)
 	}
 
 	for _, deleteFn := range onDelete {
 		if err := deleteFn(ctx, height); err != nil {
-			return fmt.Errorf("on delete handler for %d: %w", height, err)
+			return nil, fmt.Errorf("on delete handler for %d: %w", height, err)
 		}
 	}
 
 	if err := s.deleteKeys(ctx, hashKey(hash), heightKey(height)); err != nil {
-		return fmt.Errorf("delete hash (%X) and height (%d) keys: %w", hash, height, err)
+		return nil, fmt.Errorf("delete hash (%X) and height (%d) keys: %w", hash, height, err)
 	}
 
+	s.evict(height, hash)
+	return hash, nil
+}
+
+// evict drops the header from the caches and the pending batch.
+func (s *Store[H]) evict(height uint64, hash header.Hash) {
 	s.cache.Remove(hash.String())
 	s.heightIndex.cache.Remove(height)
 	s.pending.DeleteRange(height, height+1)
-	return nil
+}
+
+// deleted remembers what a deletion has removed, to evict it from the caches once more after
+// the deletes are committed: a concurrent reader may have loaded a header from the datastore
+// and cached it again between its eviction and the commit of the batch that removes it.
+type deleted struct {
+	heights []uint64
+	hashes  []header.Hash
+}
+
+func (d *deleted) add(height uint64, hash header.Hash) {
+	d.heights = append(d.heights, height)
+	d.hashes = append(d.hashes, hash)
+}
+
+func (s *Store[H]) evictAll(d *deleted) {
+	for i, height := range d.heights {
+		s.evict(height, d.hashes[i])
+	}
 }
 
 // deleteKeys removes the given keys atomically, so that a failed write cannot leave
@@ -111,11 +135,14 @@ func (s *Store[H]) deleteSequential(
 ) (highest uint64, missing int, err error) {
 	log.Debugw("starting delete range sequential", "from_height", from, "to_height", to)
 
+	var removed deleted
 	ctx, done := s.withWriteBatch(ctx)
 	defer func() {
 		if derr := done(); derr != nil {
 			err = errors.Join(err, fmt.Errorf("committing batch: %w", derr))
+			return
 		}
+		s.evictAll(&removed)
 	}()
 	ctx, doneTx := s.withReadTransaction(ctx)
 	defer doneTx()
@@ -125,12 +152,14 @@ func (s *Store[H]) deleteSequential(
 	s.onDeleteMu.Unlock()
 
 	for height := from; height < to; height++ {
-		err := s.deleteSingle(ctx, height, onDelete)
+		hash, err := s.deleteSingle(ctx, height, onDelete)
 		if errors.Is(err, datastore.ErrNotFound) {
 			missing++
 			log.Debugw("attempt to delete header that's not found", "height", height)
 		} else if err != nil {
 			return height, missing, err
+		} else {
+			removed.add(height, hash)
 		}
 	}
 
@@ -179,23 +208,29 @@ func (s *Store[H]) deleteParallel(ctx context.Context, from, to uint64) (uint64,
 			}
 		}()
 
+		var removed deleted
 		workerCtx, done := s.withWriteBatch(ctx)
 		defer func() {
 			if err := done(); err != nil {
 				last.err = errors.Join(last.err, fmt.Errorf("committing delete batch: %w", err))
+				return
 			}
+			s.evictAll(&removed)
 		}()
 		workerCtx, doneTx := s.withReadTransaction(workerCtx)
 		defer doneTx()
 
 		for height := range jobCh {
 			last.height = height
-			last.err = s.deleteSingle(workerCtx, height, onDelete)
+			var hash header.Hash
+			hash, last.err = s.deleteSingle(workerCtx, height, onDelete)
 			if errors.Is(last.err, datastore.ErrNotFound) {
 				last.missing++
 				log.Debugw("attempt to delete header that's not found", "height", height)
 			} else if last.err != nil {
 				break
+			} else {
+				removed.add(height, hash)
 			}
 		}
 	}
